@@ -5,7 +5,7 @@
 set -u
 ID="$1"; V="$2"; shift; shift
 CHECKS="${*:-$ID}"
-SRC=/tmp/wt-$ID/out/$V; DST=/verif/seeded/$ID-$V
+SRC=/tmp/wt-$ID/out/$V; DST=/verif/seeded/$ID-$V${ROUND:-}
 mkdir -p "$DST"
 cp "$SRC/patch.diff" "$DST/"; cp "$SRC"/demo.* "$DST/" 2>/dev/null; cp "$SRC/notes.md" "$DST/agent-notes.md" 2>/dev/null
 /verif/tools/verify_seeded.sh "$ID" "$V" > "$DST/verify.log" 2>&1; VR=$?
